@@ -650,7 +650,15 @@ func (w *watch) update(dirErrors map[string]error, removed ...string) bool {
 			update = true
 		} else {
 			w.tracked[dir] = false
-			w.missing[dir] = errors.Is(err, fs.ErrNotExist)
+			missing := errors.Is(err, fs.ErrNotExist)
+			if was, known := w.missing[dir]; known && was != missing {
+				// The reason why the directory cannot be watched has
+				// changed (e.g. from "a path component is not a directory"
+				// to "does not exist"), and with it what a scan finds or
+				// reports there. No event tells us, so refresh now.
+				update = true
+			}
+			w.missing[dir] = missing
 			dirErrors[dir] = fmt.Errorf("failed to monitor for changes: %w", err)
 		}
 	}
